@@ -1,7 +1,8 @@
 /-
 The documented comparison between an expected and an actual result (results.go `assert`),
-restricted to what the deterministic fragment of C02 uses: no timeout, no query parameters, no
-alternative codes, no HTTP status.
+restricted to what the deterministic fragment of C02 uses: no timeout, no alternative codes, no
+HTTP status.  Query parameters (Connect GET) are compared as `checkRequestInfo` does: only where
+headers are compared (first response, error details) and only when both sides list any.
 -/
 import ConfModel.Model.Echo
 namespace ConfModel.Echo
@@ -37,9 +38,16 @@ def subsumed (exp act : List Hdr) : Bool :=
     | none => false
     | some av => canon h.vals == canon av)
 
+/-- the "request query params" comparison of `checkRequestInfo`: skipped unless both sides list
+query parameters, otherwise the header comparison -/
+def queryAgree (eq aq : List Hdr) : Bool := eq.isEmpty || aq.isEmpty || subsumed eq aq
+
 /-- `checkRequestInfo` reports nothing (both arguments may be absent) -/
 def infoAgree (e a : Option ReqInfo) (verifyHeaders : Bool) : Bool :=
-  (if verifyHeaders then subsumed ((e.map (·.hdrs)).getD []) ((a.map (·.hdrs)).getD []) else true) &&
+  (if verifyHeaders then
+     subsumed ((e.map (·.hdrs)).getD []) ((a.map (·.hdrs)).getD []) &&
+     queryAgree ((e.map (·.query)).getD []) ((a.map (·.query)).getD [])
+   else true) &&
   ((e.map (·.reqs)).getD [] == (a.map (·.reqs)).getD [])
 
 def detailAgree (e a : Detail) : Bool :=
@@ -85,5 +93,13 @@ def agree (st : ST) (e a : Result) : Bool :=
      (subsumed e.hdrs a.hdrs && subsumed e.trls a.trls) ||
        subsumed (mergeHeaders e.hdrs e.trls) a.hdrs || subsumed (mergeHeaders e.hdrs e.trls) a.trls
    else subsumed e.hdrs a.hdrs && subsumed e.trls a.trls)
+
+/-- the request infos among error details -/
+def detailInfos (ds : List Detail) : List ReqInfo :=
+  ds.filterMap (fun d => match d with | .info ri => some ri | .other _ => none)
+
+/-- every request info a result carries: those of the payloads, then those among the error details -/
+def infosOf (r : Result) : List ReqInfo :=
+  r.payloads.filterMap (·.info) ++ (match r.err with | none => [] | some e => detailInfos e.details)
 
 end ConfModel.Echo
